@@ -280,7 +280,15 @@ fn items(args: &Args) -> Vec<Item> {
     };
     let maxlen = if thorough { 4 } else { 3 };
     let mut v = vec![];
-    for s in &scens {
+    // long axes (a lookup memo / scan window only goes wrong when the repeated query lies many intervals away from
+    // the previous one): shorter histories
+    let n_short = scens.len();
+    scens.extend([mk(Kind::Linear, vec![18], false), mk(Kind::Bilinear, vec![12, 3], true)]);
+    if thorough {
+        scens.push(mk(Kind::Spline(Bc::Natural), vec![14], true));
+    }
+    for (si, s) in scens.iter().enumerate() {
+        let maxlen = if si >= n_short { (if thorough { 2 } else { 1 }) + (if s.kind.is_2d() { 0 } else { 1 }) } else { maxlen };
         let ks = kinds(s);
         let mut hists: Vec<Vec<Mid>> = vec![vec![]];
         let mut frontier: Vec<Vec<Mid>> = vec![vec![]];
